@@ -1,3 +1,4 @@
 import CbGen.RangeTable
 import CbGen.Ladder
 import CbGen.FfiTable
+import CbGen.ErrClass
